@@ -23,38 +23,11 @@ func init() {
 		} else {
 			e = yang.NewEnumType()
 		}
-		var verdicts strings.Builder
-		if len(t) > 1 && t[1] != "-" {
-			for _, op := range strings.Split(t[1], ",") {
-				f := strings.Split(op, ":")
-				var err error
-				if len(f) == 1 && mutateOp(e, f[0]) {
-					verdicts.WriteByte('r')
-					continue
-				}
-				switch {
-				case f[0] == "n" && len(f) == 2:
-					err = e.SetNext(string(unhex(f[1])))
-				case f[0] == "s" && len(f) == 3:
-					v, perr := strconv.ParseInt(f[2], 10, 64)
-					if perr != nil {
-						panic("bad int64 " + f[2])
-					}
-					err = e.Set(string(unhex(f[1])), v)
-				default:
-					panic("bad op " + op)
-				}
-				if err != nil {
-					verdicts.WriteByte('e')
-				} else {
-					verdicts.WriteByte('o')
-				}
-			}
+		ops := "-"
+		if len(t) > 1 {
+			ops = t[1]
 		}
-		vs := verdicts.String()
-		if vs == "" {
-			vs = "-"
-		}
+		vs := applyOps(e, ops)
 		return "ops=" + vs + " " + enumViews(e)
 	}
 
@@ -66,54 +39,10 @@ func init() {
 	// before the type is observed through the second leaf: returned containers are the caller's.
 	handlers["enummod"] = func(t []string) string {
 		bits := t[0] == "1"
-		var b strings.Builder
-		b.WriteString("module m { yang-version \"1.1\"; namespace \"urn:m\"; prefix m; feature ft; typedef t { type ")
-		kw, vk := "enum", "value"
-		if bits {
-			kw, vk = "bit", "position"
-			b.WriteString("bits {")
-		} else {
-			b.WriteString("enumeration {")
-		}
-		sub := func(codes string) {
-			if codes == "-" {
-				return
-			}
-			for _, c := range codes {
-				switch c {
-				case 'c':
-					b.WriteString(" status current;")
-				case 'd':
-					b.WriteString(" status deprecated;")
-				case 'o':
-					b.WriteString(" status obsolete;")
-				case 'D':
-					b.WriteString(" description \"some text\";")
-				case 'r':
-					b.WriteString(" reference \"RFC 7950\";")
-				case 'f':
-					b.WriteString(" if-feature ft;")
-				default:
-					panic("bad substatement code")
-				}
-			}
-		}
-		for _, mem := range strings.Split(t[1], ",") {
-			f := strings.Split(mem, ":")
-			if len(f) != 4 {
-				panic("bad member " + mem)
-			}
-			fmt.Fprintf(&b, " %s %s {", kw, f[0])
-			sub(f[2])
-			if f[1] != "~" {
-				fmt.Fprintf(&b, " %s \"%s\";", vk, string(unhex(f[1])))
-			}
-			sub(f[3])
-			b.WriteString(" }")
-		}
-		b.WriteString(" } } leaf l { type t; } leaf l2 { type t; } }")
+		src := "module m { yang-version \"1.1\"; namespace \"urn:m\"; prefix m; feature ft; typedef t { type " +
+			typeBody(bits, t[1]) + " } leaf l { type t; } leaf l2 { type t; } }"
 		ms := yang.NewModules()
-		if err := ms.Parse(b.String(), "m.yang"); err != nil {
+		if err := ms.Parse(src, "m.yang"); err != nil {
 			return "parse-error " + strings.ReplaceAll(err.Error(), "\n", " ")
 		}
 		if errs := ms.Process(); len(errs) > 0 {
@@ -134,6 +63,136 @@ func init() {
 		scramble(et)
 		return "ok " + enumViews(et2)
 	}
+
+	// enumext <bits 0|1> <form t|c|i> <leaf 1|2> <members as in enummod> <ops as in enumapi>
+	// The type is resolved from a module and then EXTENDED through the API: the table a leaf ends up with is a
+	// complete EnumType (its running maximum included), whichever way the leaf reached the type:
+	//   t = typedef t used by both leaves, c = through a second typedef (typedef t2 { type t; }), i = written in place.
+	handlers["enumext"] = func(t []string) string {
+		bits := t[0] == "1"
+		body := typeBody(bits, t[3])
+		var src string
+		switch t[1] {
+		case "t":
+			src = "typedef t { type " + body + " } leaf l { type t; } leaf l2 { type t; }"
+		case "c":
+			src = "typedef t { type " + body + " } typedef t2 { type t; } leaf l { type t2; } leaf l2 { type t2; }"
+		case "i":
+			src = "leaf l { type " + body + " } leaf l2 { type " + body + " }"
+		default:
+			panic("bad form")
+		}
+		ms := yang.NewModules()
+		if err := ms.Parse("module m { yang-version \"1.1\"; namespace \"urn:m\"; prefix m; feature ft; "+src+" }", "m.yang"); err != nil {
+			return "parse-error " + strings.ReplaceAll(err.Error(), "\n", " ")
+		}
+		if errs := ms.Process(); len(errs) > 0 {
+			return "err"
+		}
+		name := "l"
+		if t[2] == "2" {
+			name = "l2"
+		}
+		l := yang.ToEntry(ms.Modules["m"]).Dir[name]
+		if l == nil || l.Type == nil {
+			return "no-leaf"
+		}
+		et := l.Type.Enum
+		if bits {
+			et = l.Type.Bit
+		}
+		if et == nil {
+			return "no-table"
+		}
+		vs := applyOps(et, t[4])
+		return "ok ops=" + vs + " " + enumViews(et)
+	}
+}
+
+// typeBody writes "enumeration { members }" / "bits { members }" from name:valuehex|~:pre:post,... (see enummod).
+func typeBody(bits bool, members string) string {
+	var b strings.Builder
+	kw, vk := "enum", "value"
+	if bits {
+		kw, vk = "bit", "position"
+		b.WriteString("bits {")
+	} else {
+		b.WriteString("enumeration {")
+	}
+	sub := func(codes string) {
+		if codes == "-" {
+			return
+		}
+		for _, c := range codes {
+			switch c {
+			case 'c':
+				b.WriteString(" status current;")
+			case 'd':
+				b.WriteString(" status deprecated;")
+			case 'o':
+				b.WriteString(" status obsolete;")
+			case 'D':
+				b.WriteString(" description \"some text\";")
+			case 'r':
+				b.WriteString(" reference \"RFC 7950\";")
+			case 'f':
+				b.WriteString(" if-feature ft;")
+			default:
+				panic("bad substatement code")
+			}
+		}
+	}
+	for _, mem := range strings.Split(members, ",") {
+		f := strings.Split(mem, ":")
+		if len(f) != 4 {
+			panic("bad member " + mem)
+		}
+		fmt.Fprintf(&b, " %s %s {", kw, f[0])
+		sub(f[2])
+		if f[1] != "~" {
+			fmt.Fprintf(&b, " %s \"%s\";", vk, string(unhex(f[1])))
+		}
+		sub(f[3])
+		b.WriteString(" }")
+	}
+	b.WriteString(" }")
+	return b.String()
+}
+
+// applyOps runs the enumapi operations on e and returns one verdict letter per operation ("-" for none).
+func applyOps(e *yang.EnumType, ops string) string {
+	var verdicts strings.Builder
+	if ops != "-" {
+		for _, op := range strings.Split(ops, ",") {
+			f := strings.Split(op, ":")
+			var err error
+			if len(f) == 1 && mutateOp(e, f[0]) {
+				verdicts.WriteByte('r')
+				continue
+			}
+			switch {
+			case f[0] == "n" && len(f) == 2:
+				err = e.SetNext(string(unhex(f[1])))
+			case f[0] == "s" && len(f) == 3:
+				v, perr := strconv.ParseInt(f[2], 10, 64)
+				if perr != nil {
+					panic("bad int64 " + f[2])
+				}
+				err = e.Set(string(unhex(f[1])), v)
+			default:
+				panic("bad op " + op)
+			}
+			if err != nil {
+				verdicts.WriteByte('e')
+			} else {
+				verdicts.WriteByte('o')
+			}
+		}
+	}
+	if verdicts.Len() == 0 {
+		return "-"
+	}
+	return verdicts.String()
 }
 
 // scramble edits every container the EnumType hands out.
